@@ -65,7 +65,8 @@ def write(root, ds, *, lidar_channel="LIDAR_TOP", vis_convention="names", time_u
                 "token": tok(a), "sample_token": "sample-%d" % a["sample"], "instance_token": "inst-%d" % inst, "visibility_token": "vis-%s" % a["vis"],
                 "attribute_tokens": ["attr-0"] if a["attr"] else [], "translation": [float(a["x"]), float(a["y"]), float(a["z"])],
                 "size": list(a["size_wlh"]) if "size_wlh" in a else list(SIZES[a["size"]]), "rotation": quat(yaw), "prev": tok(lst[j - 1]) if j > 0 else "",
-                "next": tok(lst[j + 1]) if j + 1 < len(lst) else "", "num_lidar_pts": int(a["pts"]), "num_radar_pts": 0})
+                "next": tok(lst[j + 1]) if j + 1 < len(lst) else "", "num_lidar_pts": int(a["pts"]),
+                "num_radar_pts": int(a.get("radar_pts", (3 * int(a["pts"]) + int(a["inst"])) % 4 + 1))})   # never read by the loader (lidar count only)
     T["instance"] = []
     for inst, c in sorted(ds["cats"].items()):
         lst = by_inst.get(inst, [])
@@ -73,6 +74,51 @@ def write(root, ds, *, lidar_channel="LIDAR_TOP", vis_convention="names", time_u
             continue
         T["instance"].append({"token": "inst-%d" % inst, "category_token": cat_tok[c], "nbr_annotations": len(lst), "first_annotation_token": tok(lst[0]),
                               "last_annotation_token": tok(lst[-1])})
+    for name, rows in T.items():
+        with open(os.path.join(ann_dir, name + ".json"), "w") as f:
+            json.dump(rows, f)
+    return root
+
+
+def write2d(root, ds, *, time_unit_us=500_000):
+    """2-D (nuImages-style) dataset: ds = dict(samples=[{time, cams:[channel values such as 'cam_front']}], insts={inst: {cat, reg}},
+    anns=[{sample(1-based), cam, inst, box:[x0,y0,x1,y1] in tenths of a pixel, attr}] in object_ann table order); all cameras of `ds['cameras']`
+    are registered as sensors, a camera has sample_data in a sample only when listed in that sample's `cams`."""
+    ann_dir = os.path.join(root, "annotation")
+    os.makedirs(ann_dir, exist_ok=True)
+    n = len(ds["samples"])
+    cats = sorted(set(v["cat"] for v in ds["insts"].values()))
+    T = {}
+    T["category"] = [{"token": "cat-%d" % i, "name": c, "description": ""} for i, c in enumerate(cats)]
+    cat_tok = {c: "cat-%d" % i for i, c in enumerate(cats)}
+    T["attribute"] = [{"token": "attr-0", "name": ATTR_NAME, "description": ""}, {"token": "attr-1", "name": "other.attribute", "description": ""}]
+    T["visibility"] = [{"token": "vis-%s" % v, "level": v, "description": ""} for v in VIS_NAMES]
+    cams = list(ds["cameras"])
+    T["sensor"] = [{"token": "sensor-lidar", "channel": "LIDAR_TOP", "modality": "lidar"}] + [{"token": "sensor-" + c, "channel": c.upper(), "modality": "camera"} for c in cams]
+    T["calibrated_sensor"] = [{"token": "cs-lidar", "sensor_token": "sensor-lidar", "translation": [0.0, 0.0, 0.0], "rotation": [1.0, 0.0, 0.0, 0.0], "camera_intrinsic": []}] + [
+        {"token": "cs-" + c, "sensor_token": "sensor-" + c, "translation": [1.5, 0.1 * i, 1.2], "rotation": quat(0.3 * i),
+         "camera_intrinsic": [[1000.0, 0.0, 640.0], [0.0, 1000.0, 360.0], [0.0, 0.0, 1.0]]} for i, c in enumerate(cams)]
+    T["log"] = [{"token": "log-0", "logfile": "verif", "vehicle": "v", "date_captured": "2020-01-01", "location": "lattice"}]
+    T["map"] = [{"token": "map-0", "log_tokens": ["log-0"], "category": "semantic_prior", "filename": ""}]
+    T["scene"] = [{"token": "scene-0", "log_token": "log-0", "nbr_samples": n, "first_sample_token": "sample-1", "last_sample_token": "sample-%d" % n,
+                   "name": "scene-verif", "description": "TLR, regulatory_element"}]
+    T["sample"], T["ego_pose"], T["sample_data"] = [], [], []
+    for k, s in enumerate(ds["samples"], 1):
+        ts = BASE_US + int(s["time"]) * time_unit_us
+        T["sample"].append({"token": "sample-%d" % k, "timestamp": ts, "prev": "sample-%d" % (k - 1) if k > 1 else "", "next": "sample-%d" % (k + 1) if k < n else "",
+                            "scene_token": "scene-0"})
+        T["ego_pose"].append({"token": "ego-%d" % k, "timestamp": ts, "rotation": quat(0.2 * k), "translation": [3.0 * k, 1.0, 0.0]})
+        for c in s["cams"]:
+            T["sample_data"].append({"token": "sd-%s-%d" % (c, k), "sample_token": "sample-%d" % k, "ego_pose_token": "ego-%d" % k, "calibrated_sensor_token": "cs-" + c,
+                                     "timestamp": ts, "fileformat": "jpg", "is_key_frame": True, "height": 720, "width": 1280, "filename": "data/%s/%d.jpg" % (c.upper(), k),
+                                     "prev": "", "next": ""})
+    T["sample_annotation"] = []
+    T["instance"] = [{"token": "inst-%d" % i, "category_token": cat_tok[v["cat"]], "instance_name": "traffic_light::%d" % v["reg"], "nbr_annotations": 0,
+                      "first_annotation_token": "", "last_annotation_token": ""} for i, v in sorted(ds["insts"].items())]
+    T["object_ann"] = [{"token": "oa-%d" % j, "sample_data_token": "sd-%s-%d" % (a["cam"], a["sample"]), "instance_token": "inst-%d" % a["inst"],
+                        "category_token": cat_tok[ds["insts"][a["inst"]]["cat"]], "attribute_tokens": ["attr-0"] if a["attr"] else [],
+                        "bbox": [v / 10.0 for v in a["box"]], "mask": None} for j, a in enumerate(ds["anns"])]
+    T["surface_ann"] = []
     for name, rows in T.items():
         with open(os.path.join(ann_dir, name + ".json"), "w") as f:
             json.dump(rows, f)
